@@ -17,59 +17,71 @@ def upT : Stmt :=
       .skip)
       .skip)
   .skip))
-def muT : Stmt :=
-  (.seq (.ite (.bin "==" (.var "r.mouse") (.var "nil"))
+def mu0 : Stmt :=
+  (.ite (.bin "==" (.var "r.mouse") (.var "nil"))
       (.seq (.atom ⟨1, .returnS, (.var "nil"), .none⟩)
       .skip)
       .skip)
-  (.seq (.atom ⟨0, .define, (.var "v2"), (.lit "[]hitResult{}")⟩)
-  (.seq (.atom ⟨0, .define, (.var "v3"), (.arg (.arg (.arg (.call (.var "NewSubSurface")) (.int 0)) (.int 0)) (.var "v1"))⟩)
-  (.seq (.ite (.arg (.arg (.call (.var "v3.containsPoint")) (.var "r.mouse.Col")) (.var "r.mouse.Row"))
+def mu1 : Stmt := (.atom ⟨0, .define, (.var "v2"), (.lit "[]hitResult{}")⟩)
+def mu2 : Stmt := (.atom ⟨0, .define, (.var "v3"), (.arg (.arg (.arg (.call (.var "NewSubSurface")) (.int 0)) (.int 0)) (.var "v1"))⟩)
+def mu3 : Stmt :=
+  (.ite (.arg (.arg (.call (.var "v3.containsPoint")) (.var "r.mouse.Col")) (.var "r.mouse.Row"))
       (.seq (.atom ⟨1, .assign, (.var "v2"), (.arg (.arg (.arg (.arg (.call (.var "hitTest")) (.var "v1")) (.var "v2")) (.arg (.call (.var "uint16")) (.var "r.mouse.Col"))) (.arg (.call (.var "uint16")) (.var "r.mouse.Row")))⟩)
       .skip)
       .skip)
-  (.seq (.rangeOver "_" "v4" (.var "r.lastHits")
-      (.seq (.rangeOver "_" "v5" (.var "v2")
+/-- `for _, h2 := range hits { if h1 == h2 { continue outer_exit } }` -/
+def inB1 : Stmt :=
           (.seq (.ite (.bin "==" (.var "v4") (.var "v5"))
               (.seq (.atom ⟨3, .continueS, (.var "outer_exit"), (.int 1)⟩)
               .skip)
               .skip)
-          .skip))
+          .skip)
+def callB1 : Stmt :=
       (.seq (.atom ⟨1, .define, (.pair (.var "v6") (.var "v7")), (.arg (.arg (.call (.var "v4.w.HandleEvent")) (.lit "MouseLeave{}")) (.var "TargetPhase"))⟩)
       (.seq (.ite (.bin "!=" (.var "v7") (.var "nil"))
           (.seq (.atom ⟨2, .returnS, (.var "v7"), .none⟩)
           .skip)
           .skip)
       (.seq (.atom ⟨1, .exprS, (.arg (.call (.var "v0.handleCommand")) (.var "v6")), .none⟩)
-      .skip)))))
-  (.seq (.rangeOver "_" "v8" (.var "v2")
-      (.seq (.rangeOver "_" "v9" (.var "r.lastHits")
+      .skip)))
+def outB1 : Stmt := (.seq (.rangeOver "_" "v5" (.var "v2") inB1) callB1)
+def inB2 : Stmt :=
           (.seq (.ite (.bin "==" (.var "v8") (.var "v9"))
               (.seq (.atom ⟨3, .continueS, (.var "outer_enter"), (.int 1)⟩)
               .skip)
               .skip)
-          .skip))
+          .skip)
+def callB2 : Stmt :=
       (.seq (.atom ⟨1, .define, (.pair (.var "v10") (.var "v11")), (.arg (.arg (.call (.var "v8.w.HandleEvent")) (.lit "MouseEnter{}")) (.var "TargetPhase"))⟩)
       (.seq (.ite (.bin "!=" (.var "v11") (.var "nil"))
           (.seq (.atom ⟨2, .returnS, (.var "v11"), .none⟩)
           .skip)
           .skip)
       (.seq (.atom ⟨1, .exprS, (.arg (.call (.var "v0.handleCommand")) (.var "v10")), .none⟩)
-      .skip)))))
+      .skip)))
+def outB2 : Stmt := (.seq (.rangeOver "_" "v9" (.var "r.lastHits") inB2) callB2)
+def muEnd : Stmt :=
   (.seq (.atom ⟨0, .assign, (.var "r.lastHits"), (.var "v2")⟩)
   (.seq (.atom ⟨0, .returnS, (.var "nil"), .none⟩)
-  .skip))))))))
+  .skip))
+def muLoops : Stmt :=
+  (.seq (.rangeOver "_" "v4" (.var "r.lastHits") outB1)
+  (.seq (.rangeOver "_" "v8" (.var "v2") outB2)
+  muEnd))
+def muT : Stmt := (.seq mu0 (.seq mu1 (.seq mu2 (.seq mu3 muLoops))))
+/-- `{ a.handleCommand(c) }` -/
+def hcLoopBody (v : String) : Stmt :=
+  .seq (.atom ⟨3, .exprS, (.arg (.call (.var "r.handleCommand")) (.var v)), .none⟩) .skip
+
 def hcT : Stmt :=
   (.seq (.sw true (.lit "v1 := v0.(type)")
       (.case (.var "BatchCmd")
         (.seq (.rangeOver "_" "v2" (.var "v1")
-            (.seq (.atom ⟨3, .exprS, (.arg (.call (.var "r.handleCommand")) (.var "v2")), .none⟩)
-            .skip))
+            (hcLoopBody "v2"))
         .skip)
       (.case (.lit "[]Command")
         (.seq (.rangeOver "_" "v3" (.var "v1")
-            (.seq (.atom ⟨3, .exprS, (.arg (.call (.var "r.handleCommand")) (.var "v3")), .none⟩)
-            .skip))
+            (hcLoopBody "v3"))
         .skip)
       (.case (.var "RedrawCmd")
         (.seq (.atom ⟨2, .assign, (.var "r.redraw"), (.var "true")⟩)
@@ -127,5 +139,373 @@ theorem up_exec (e : EOracle) (fuel : Nat) (s : St) (t : STree) :
   cases h : (findPath { s with fhFrame := some t }).2
   · xs [h, hr]
   · xs [h, hr]
+
+/-! ### handleCommand -/
+
+theorem foldl_flattenL {α : Type} (f : α → Atom → α) : ∀ (l : List Cmd) (s : α),
+    (Cmd.flattenL l).foldl f s = l.foldl (fun s c => c.flatten.foldl f s) s
+  | [], _ => rfl
+  | c :: r, s => by
+    rw [Cmd.flattenL, List.foldl_append, List.foldl_cons, foldl_flattenL f r]
+
+theorem eHC_batch (e : EOracle) (fuel : Nat) (s : St) (l : List Cmd) :
+    eHandleCommand e (fuel + 1) s (.batch l) = l.foldl (fun s c => eHandleCommand e (fuel + 1) s c) s := by
+  simp only [eHandleCommand, Cmd.flatten, foldl_flattenL]
+
+theorem eHC_slice (e : EOracle) (fuel : Nat) (s : St) (l : List Cmd) :
+    eHandleCommand e (fuel + 1) s (.slice l) = l.foldl (fun s c => eHandleCommand e (fuel + 1) s c) s := by
+  simp only [eHandleCommand, Cmd.flatten, foldl_flattenL]
+
+theorem depth_mem : ∀ (l : List Cmd) (c : Cmd), c ∈ l → cmdDepth c ≤ cmdDepthL l
+  | [], _, h => by cases h
+  | a :: r, c, h => by
+    rw [cmdDepthL]
+    cases h with
+    | head => exact Nat.le_max_left _ _
+    | tail _ h' => exact Nat.le_trans (depth_mem r c h') (Nat.le_max_right _ _)
+
+/-- The loop `for _, c := range cmd { a.handleCommand(c) }` when the recursive call is `run`. -/
+theorem hc_range (e : EOracle) (fuel : Nat) (v : String) (run : St → Cmd → Option St) (g : St → Cmd → St) :
+    ∀ (l : List Cmd) (m : VMX), m.x.self = run → (∀ c ∈ l, ∀ s, run s c = some (g s c)) →
+      ∃ m', rangeCmds v (execX e fuel .init (hcLoopBody v)) l m = some (m', .norm) ∧
+        m'.vm.s = l.foldl g m.vm.s := by
+  intro l
+  induction l with
+  | nil => intro m _ _; exact ⟨m, rfl, rfl⟩
+  | cons c l ih =>
+    intro m hs hrun
+    have h1 := hrun c (List.mem_cons_self) m.vm.s
+    obtain ⟨m', hm, hs'⟩ := ih (setS { m with vm := { m.vm with cmds := (v, c) :: m.vm.cmds } } (g m.vm.s c)) hs
+      (fun c' hc' => hrun c' (List.mem_cons_of_mem _ hc'))
+    refine ⟨m', ?_, ?_⟩
+    · rw [rangeCmds]
+      have hb : execX e fuel .init (hcLoopBody v)
+          { m with vm := { m.vm with cmds := (v, c) :: m.vm.cmds } } =
+          some (setS { m with vm := { m.vm with cmds := (v, c) :: m.vm.cmds } } (g m.vm.s c), .norm) := by
+        simp [hcLoopBody, execX, atomX, find, hs, h1, setS]
+      rw [hb]
+      exact hm
+    · rw [hs']; rfl
+
+theorem hc_exec (e : EOracle) (fuel : Nat) : ∀ (d : Nat) (s : St) (c : Cmd), cmdDepth c < d →
+    runHandleCommandD hcT e fuel d s c = some (eHandleCommand e (fuel + 1) s c) := by
+  intro d
+  induction d with
+  | zero => intro s c h; omega
+  | succ d ih =>
+    intro s c hd
+    cases c with
+    | nil => unfold runHandleCommandD hcT; xs [eHandleCommand, Cmd.flatten]
+    | redraw => unfold runHandleCommandD hcT; xs [eHandleCommand, Cmd.flatten, eExecAtom, execAtom]
+    | refresh => unfold runHandleCommandD hcT; xs [eHandleCommand, Cmd.flatten, eExecAtom, execAtom]
+    | quit => unfold runHandleCommandD hcT; xs [eHandleCommand, Cmd.flatten, eExecAtom, execAtom]
+    | consume => unfold runHandleCommandD hcT; xs [eHandleCommand, Cmd.flatten, eExecAtom, execAtom]
+    | debug => unfold runHandleCommandD hcT; xs [eHandleCommand, Cmd.flatten, eExecAtom, execAtom]
+    | focus w =>
+      unfold runHandleCommandD hcT
+      have hm : eHandleCommand e (fuel + 1) s (.focus w) = (eFocusWidget e (fuel + 1) s w).1 := by
+        simp [eHandleCommand, Cmd.flatten, eExecAtom, eFocusWidget]
+      have heta : ({ s with trace := s.trace } : St) = s := rfl
+      rw [hm]
+      cases hf : (eFocusWidget e (fuel + 1) s w).2
+      · xs [heta, hf]
+      · xs [heta, hf]
+    | other k =>
+      unfold runHandleCommandD hcT
+      have h4 : k % 4 = 0 ∨ k % 4 = 1 ∨ k % 4 = 2 ∨ k % 4 = 3 := by omega
+      rcases h4 with h | h | h | h
+      · xs [eHandleCommand, Cmd.flatten, eExecAtom, execAtom, h]
+      · xs [eHandleCommand, Cmd.flatten, eExecAtom, execAtom, h]
+      · xs [eHandleCommand, Cmd.flatten, eExecAtom, execAtom, h]
+      · xs [eHandleCommand, Cmd.flatten, eExecAtom, execAtom, h]
+    | batch l =>
+      have hl : ∀ c ∈ l, ∀ s, runHandleCommandD hcT e fuel d s c = some (eHandleCommand e (fuel + 1) s c) := by
+        intro c hc s
+        have := depth_mem l c hc
+        rw [cmdDepth] at hd
+        exact ih s c (by omega)
+      rw [eHC_batch, runHandleCommandD]
+      generalize runHandleCommandD hcT e fuel d = run at hl ⊢
+      obtain ⟨m', hm, hs'⟩ := hc_range e fuel "v2" run (fun s c => eHandleCommand e (fuel + 1) s c) l
+        ⟨⟨s, [], [], [("v1", .batch l), ("v0", .batch l)], [], []⟩, { self := run }⟩ rfl hl
+      have heta : ({ s with trace := s.trace } : St) = s := rfl
+      unfold hcT
+      xs [heta, hm, hs']
+    | slice l =>
+      have hl : ∀ c ∈ l, ∀ s, runHandleCommandD hcT e fuel d s c = some (eHandleCommand e (fuel + 1) s c) := by
+        intro c hc s
+        have := depth_mem l c hc
+        rw [cmdDepth] at hd
+        exact ih s c (by omega)
+      rw [eHC_slice, runHandleCommandD]
+      generalize runHandleCommandD hcT e fuel d = run at hl ⊢
+      obtain ⟨m', hm, hs'⟩ := hc_range e fuel "v3" run (fun s c => eHandleCommand e (fuel + 1) s c) l
+        ⟨⟨s, [], [], [("v1", .slice l), ("v0", .slice l)], [], []⟩, { self := run }⟩ rfl hl
+      have heta : ({ s with trace := s.trace } : St) = s := rfl
+      unfold hcT
+      xs [heta, hm, hs']
+
+theorem hc_run (e : EOracle) (fuel : Nat) (s : St) (c : Cmd) :
+    runHandleCommand hcT e fuel s c = some (eHandleCommand e (fuel + 1) s c) :=
+  hc_exec e fuel _ s c (Nat.lt_succ_self _)
+
+/-! ### mouseHandler.update -/
+
+theorem eNotify_hits (e : EOracle) (fuel : Nat) (s : St) (w : Id) (ev : Ev) :
+    (eNotify e fuel s w ev).1.lastHits = s.lastHits := by
+  unfold eNotify
+  simp only []
+  split
+  · rfl
+  · rw [VxfwBody.eHandleCommand_hits]; rfl
+
+theorem execX_range_hits (e : EOracle) (fuel : Nat) (ev : Ev) (k v l : String) (b : Stmt) (m : VMX) (hs : List Hit)
+    (h : evHits m l = some hs) :
+    execX e fuel ev (.rangeOver k v (.var l) b) m = rangeHits v (execX e fuel ev b) hs m := by
+  simp [execX, h]
+
+theorem execX_seq (e : EOracle) (fuel : Nat) (ev : Ev) (a b : Stmt) (m : VMX) :
+    execX e fuel ev (.seq a b) m = (match execX e fuel ev a m with
+      | some (m', .norm) => execX e fuel ev b m'
+      | r => r) := by
+  simp only [execX]
+  rfl
+
+def viewX (r : ResX) : Option (St × VX × CtlX) := r.map (fun r => (r.1.vm.s, r.1.x, r.2))
+
+theorem viewX_some {r : ResX} {s : St} {x : VX} {c : CtlX} (h : viewX r = some (s, x, c)) :
+    ∃ m', r = some (m', c) ∧ m'.vm.s = s ∧ m'.x = x := by
+  cases r with
+  | none => simp [viewX] at h
+  | some y =>
+    obtain ⟨m', c'⟩ := y
+    simp only [viewX, Option.map_some, Option.some.injEq, Prod.mk.injEq] at h
+    obtain ⟨h1, h2, h3⟩ := h
+    subst h3
+    exact ⟨m', rfl, h1, h2⟩
+
+/-- The inner loop of the exit loop: `continue outer_exit` iff `h1` is among the new hits. -/
+theorem in1_loop (e : EOracle) (fuel : Nat) (h1 : Hit) : ∀ (hs : List Hit) (m : VMX),
+    find m.x.hit "v4" = some h1 →
+    ∃ m', rangeHits "v5" (execX e fuel .init inB1) hs m = some (m', if hs.contains h1 then .contOut 0 else .norm) ∧
+      m'.vm.s = m.vm.s ∧ m'.x.hitl = m.x.hitl ∧ find m'.x.hit "v4" = some h1 ∧
+      find m'.vm.ids "v4.w.HandleEvent" = find m.vm.ids "v4.w.HandleEvent" := by
+  intro hs
+  induction hs with
+  | nil => intro m h4; exact ⟨m, rfl, rfl, rfl, h4, rfl⟩
+  | cons h hs ih =>
+    intro m h4
+    by_cases hx : h1 = h
+    · refine ⟨bindHit m "v5" h, ?_, rfl, rfl, ?_, ?_⟩
+      · rw [rangeHits]
+        have hb : execX e fuel .init inB1 (bindHit m "v5" h) = some (bindHit m "v5" h, .contOut 1) := by
+          xs [inB1, h4, hx]
+        rw [hb]
+        simp [hx]
+      · simp [bindHit, find, h4]
+      · simp [bindHit, find]
+    · obtain ⟨m', hm, h1', h2', h3', h5'⟩ := ih (bindHit m "v5" h) (by simp [bindHit, find, h4])
+      refine ⟨m', ?_, h1', h2', h3', ?_⟩
+      · rw [rangeHits]
+        have hb : execX e fuel .init inB1 (bindHit m "v5" h) = some (bindHit m "v5" h, .norm) := by
+          xs [inB1, h4, hx]
+        rw [hb]
+        have hne : (h1 == h) = false := by simpa using hx
+        simp only [hm, List.contains_cons, hne, Bool.false_or]
+      · rw [h5']; simp [bindHit, find]
+
+/-- The inner loop of the enter loop. -/
+theorem in2_loop (e : EOracle) (fuel : Nat) (h1 : Hit) : ∀ (hs : List Hit) (m : VMX),
+    find m.x.hit "v8" = some h1 →
+    ∃ m', rangeHits "v9" (execX e fuel .init inB2) hs m = some (m', if hs.contains h1 then .contOut 0 else .norm) ∧
+      m'.vm.s = m.vm.s ∧ m'.x.hitl = m.x.hitl ∧ find m'.x.hit "v8" = some h1 ∧
+      find m'.vm.ids "v8.w.HandleEvent" = find m.vm.ids "v8.w.HandleEvent" := by
+  intro hs
+  induction hs with
+  | nil => intro m h4; exact ⟨m, rfl, rfl, rfl, h4, rfl⟩
+  | cons h hs ih =>
+    intro m h4
+    by_cases hx : h1 = h
+    · refine ⟨bindHit m "v9" h, ?_, rfl, rfl, ?_, ?_⟩
+      · rw [rangeHits]
+        have hb : execX e fuel .init inB2 (bindHit m "v9" h) = some (bindHit m "v9" h, .contOut 1) := by
+          xs [inB2, h4, hx]
+        rw [hb]
+        simp [hx]
+      · simp [bindHit, find, h4]
+      · simp [bindHit, find]
+    · obtain ⟨m', hm, h1', h2', h3', h5'⟩ := ih (bindHit m "v9" h) (by simp [bindHit, find, h4])
+      refine ⟨m', ?_, h1', h2', h3', ?_⟩
+      · rw [rangeHits]
+        have hb : execX e fuel .init inB2 (bindHit m "v9" h) = some (bindHit m "v9" h, .norm) := by
+          xs [inB2, h4, hx]
+        rw [hb]
+        have hne : (h1 == h) = false := by simpa using hx
+        simp only [hm, List.contains_cons, hne, Bool.false_or]
+      · rw [h5']; simp [bindHit, find]
+
+/-- `cmd, err := h1.w.HandleEvent(MouseLeave{}, TargetPhase); if err != nil { return err }; app.handleCommand(cmd)`. -/
+theorem call1 (e : EOracle) (fuel : Nat) (m : VMX) (w : Id) (hw : find m.vm.ids "v4.w.HandleEvent" = some w) :
+    ∃ m', execX e fuel .init callB1 m = some (m', if (eNotify e fuel m.vm.s w .mouseLeave).2 then .ret true else .norm) ∧
+      m'.vm.s = (eNotify e fuel m.vm.s w .mouseLeave).1 ∧ m'.x = m.x := by
+  apply viewX_some
+  unfold eNotify
+  cases hf : e.failsAt m.vm.s w .mouseLeave .target
+  · xs [viewX, callB1, hw, hf]
+  · xs [viewX, callB1, hw, hf]
+
+theorem call2 (e : EOracle) (fuel : Nat) (m : VMX) (w : Id) (hw : find m.vm.ids "v8.w.HandleEvent" = some w) :
+    ∃ m', execX e fuel .init callB2 m = some (m', if (eNotify e fuel m.vm.s w .mouseEnter).2 then .ret true else .norm) ∧
+      m'.vm.s = (eNotify e fuel m.vm.s w .mouseEnter).1 ∧ m'.x = m.x := by
+  apply viewX_some
+  unfold eNotify
+  cases hf : e.failsAt m.vm.s w .mouseEnter .target
+  · xs [viewX, callB2, hw, hf]
+  · xs [viewX, callB2, hw, hf]
+
+
+theorem eNotifyLoop_hits (e : EOracle) (fuel : Nat) (ev : Ev) (skip : Hit → Bool) : ∀ (l : List Hit) (s : St),
+    (eNotifyLoop e fuel ev skip l s).1.lastHits = s.lastHits
+  | [], _ => rfl
+  | h :: r, s => by
+    unfold eNotifyLoop
+    split
+    · exact eNotifyLoop_hits e fuel ev skip r s
+    · simp only []
+      split
+      · exact eNotify_hits e fuel s h.w ev
+      · rw [eNotifyLoop_hits e fuel ev skip r, eNotify_hits]
+
+/-- One iteration of the exit loop. -/
+theorem out1_body (e : EOracle) (fuel : Nat) (hits : List Hit) (m : VMX) (h1 : Hit) (hh : find m.x.hitl "v2" = some hits) :
+    ∃ m', execX e fuel .init outB1 (bindHit m "v4" h1) =
+        some (m', if hits.contains h1 then .contOut 0 else if (eNotify e fuel m.vm.s h1.w .mouseLeave).2 then .ret true else .norm) ∧
+      m'.vm.s = (if hits.contains h1 then m.vm.s else (eNotify e fuel m.vm.s h1.w .mouseLeave).1) ∧ m'.x.hitl = m.x.hitl := by
+  obtain ⟨m1, hm, hs1, hl1, _, hi1⟩ := in1_loop e fuel h1 hits (bindHit m "v4" h1) (by simp [bindHit, find])
+  have hev : evHits (bindHit m "v4" h1) "v2" = some hits := by simp [evHits, bindHit, hh]
+  unfold outB1
+  rw [execX_seq, execX_range_hits e fuel .init "_" "v5" "v2" inB1 _ hits hev, hm]
+  cases hc : hits.contains h1
+  · simp only [Bool.false_eq_true, ↓reduceIte]
+    obtain ⟨m2, hm2, hs2, hx2⟩ := call1 e fuel m1 h1.w (by rw [hi1]; simp [bindHit, find])
+    rw [hs1] at hm2 hs2
+    exact ⟨m2, hm2, hs2, by rw [hx2, hl1]; rfl⟩
+  · simp only [↓reduceIte]
+    exact ⟨m1, rfl, hs1, hl1⟩
+
+theorem out1_loop (e : EOracle) (fuel : Nat) (hits : List Hit) : ∀ (old : List Hit) (m : VMX), find m.x.hitl "v2" = some hits →
+    ∃ m', rangeHits "v4" (execX e fuel .init outB1) old m =
+        some (m', if (eNotifyLoop e fuel .mouseLeave (fun h => hits.contains h) old m.vm.s).2 then .ret true else .norm) ∧
+      m'.vm.s = (eNotifyLoop e fuel .mouseLeave (fun h => hits.contains h) old m.vm.s).1 ∧ m'.x.hitl = m.x.hitl := by
+  intro old
+  induction old with
+  | nil => intro m _; exact ⟨m, rfl, rfl, rfl⟩
+  | cons h1 old ih =>
+    intro m hh
+    obtain ⟨m1, hm, hs1, hl1⟩ := out1_body e fuel hits m h1 hh
+    rw [rangeHits, hm, eNotifyLoop]
+    cases hc : hits.contains h1
+    · simp only [hc, Bool.false_eq_true, ↓reduceIte] at hs1 ⊢
+      cases hx : (eNotify e fuel m.vm.s h1.w .mouseLeave).2
+      · simp only [Bool.false_eq_true, ↓reduceIte]
+        obtain ⟨m2, hm2, hs2, hl2⟩ := ih m1 (by rw [hl1]; exact hh)
+        rw [hs1] at hm2 hs2
+        exact ⟨m2, hm2, hs2, by rw [hl2, hl1]⟩
+      · simp only [↓reduceIte, hx]
+        exact ⟨m1, rfl, hs1, hl1⟩
+    · simp only [hc, ↓reduceIte] at hs1 ⊢
+      obtain ⟨m2, hm2, hs2, hl2⟩ := ih m1 (by rw [hl1]; exact hh)
+      rw [hs1] at hm2 hs2
+      exact ⟨m2, hm2, hs2, by rw [hl2, hl1]⟩
+
+/-- One iteration of the enter loop (`m.lastHits` is read live; nothing in the loop changes it). -/
+theorem out2_body (e : EOracle) (fuel : Nat) (m : VMX) (h1 : Hit) :
+    ∃ m', execX e fuel .init outB2 (bindHit m "v8" h1) =
+        some (m', if m.vm.s.lastHits.contains h1 then .contOut 0 else if (eNotify e fuel m.vm.s h1.w .mouseEnter).2 then .ret true else .norm) ∧
+      m'.vm.s = (if m.vm.s.lastHits.contains h1 then m.vm.s else (eNotify e fuel m.vm.s h1.w .mouseEnter).1) ∧ m'.x.hitl = m.x.hitl := by
+  obtain ⟨m1, hm, hs1, hl1, _, hi1⟩ := in2_loop e fuel h1 m.vm.s.lastHits (bindHit m "v8" h1) (by simp [bindHit, find])
+  have hev : evHits (bindHit m "v8" h1) "r.lastHits" = some m.vm.s.lastHits := by simp [evHits, bindHit]
+  unfold outB2
+  rw [execX_seq, execX_range_hits e fuel .init "_" "v9" "r.lastHits" inB2 _ m.vm.s.lastHits hev, hm]
+  cases hc : m.vm.s.lastHits.contains h1
+  · simp only [Bool.false_eq_true, ↓reduceIte]
+    obtain ⟨m2, hm2, hs2, hx2⟩ := call2 e fuel m1 h1.w (by rw [hi1]; simp [bindHit, find])
+    rw [hs1] at hm2 hs2
+    exact ⟨m2, hm2, hs2, by rw [hx2, hl1]; rfl⟩
+  · simp only [↓reduceIte]
+    exact ⟨m1, rfl, hs1, hl1⟩
+
+theorem out2_loop (e : EOracle) (fuel : Nat) (old : List Hit) : ∀ (hs : List Hit) (m : VMX), m.vm.s.lastHits = old →
+    ∃ m', rangeHits "v8" (execX e fuel .init outB2) hs m =
+        some (m', if (eNotifyLoop e fuel .mouseEnter (fun h => old.contains h) hs m.vm.s).2 then .ret true else .norm) ∧
+      m'.vm.s = (eNotifyLoop e fuel .mouseEnter (fun h => old.contains h) hs m.vm.s).1 ∧ m'.x.hitl = m.x.hitl := by
+  intro hs
+  induction hs with
+  | nil => intro m _; exact ⟨m, rfl, rfl, rfl⟩
+  | cons h1 hs ih =>
+    intro m ho
+    obtain ⟨m1, hm, hs1, hl1⟩ := out2_body e fuel m h1
+    rw [ho] at hm hs1
+    rw [rangeHits, hm, eNotifyLoop]
+    cases hc : old.contains h1
+    · simp only [hc, Bool.false_eq_true, ↓reduceIte] at hs1 ⊢
+      cases hx : (eNotify e fuel m.vm.s h1.w .mouseEnter).2
+      · simp only [Bool.false_eq_true, ↓reduceIte]
+        obtain ⟨m2, hm2, hs2, hl2⟩ := ih m1 (by rw [hs1, eNotify_hits]; exact ho)
+        rw [hs1] at hm2 hs2
+        exact ⟨m2, hm2, hs2, by rw [hl2, hl1]⟩
+      · simp only [↓reduceIte, hx]
+        exact ⟨m1, rfl, hs1, hl1⟩
+    · simp only [hc, ↓reduceIte] at hs1 ⊢
+      obtain ⟨m2, hm2, hs2, hl2⟩ := ih m1 (by rw [hs1]; exact ho)
+      rw [hs1] at hm2 hs2
+      exact ⟨m2, hm2, hs2, by rw [hl2, hl1]⟩
+
+/-- The statements before the loops: `hits` = the model's `hitsAt`. -/
+theorem mu_prefix (e : EOracle) (fuel : Nat) (s : St) (t : STree) (col row : Int) (hmo : s.mouse = some (col, row)) (K : Stmt) :
+    ∃ m1, execX e fuel .init (.seq mu0 (.seq mu1 (.seq mu2 (.seq mu3 K)))) (bindTree ⟨vm0 s, {}⟩ "v1" t) = execX e fuel .init K m1 ∧
+      m1.vm = vm0 s ∧ find m1.x.hitl "v2" = some (hitsAt t col row) := by
+  unfold hitsAt
+  cases hc : containsPoint 0 0 t.w t.h col row
+  · refine ⟨⟨vm0 s, VX.mk [("v2", [])] []
+        [("v3", t), ("v3.containsPoint", t), ("v1", t), ("v1.containsPoint", t)] (fun _ _ => none)⟩, ?_, rfl, ?_⟩
+    · xs [mu0, mu1, mu2, mu3, hmo, hc]
+    · simp [find]
+  · refine ⟨⟨vm0 s, VX.mk [("v2", (([] : List Hit) ++ hitTest t (u16 col) (u16 row))), ("v2", ([] : List Hit))] []
+        [("v3", t), ("v3.containsPoint", t), ("v1", t), ("v1.containsPoint", t)] (fun _ _ => none)⟩, ?_, rfl, ?_⟩
+    · xs [mu0, mu1, mu2, mu3, hmo, hc]
+    · simp [find]
+
+theorem mu_exec (e : EOracle) (fuel : Nat) (s : St) (t : STree) :
+    runMouseUpdate muT e fuel s t = some (eMouseUpdate e fuel s t) := by
+  unfold runMouseUpdate eMouseUpdate
+  cases hmo : s.mouse with
+  | none => xs [muT, mu0, hmo]
+  | some p =>
+    obtain ⟨col, row⟩ := p
+    obtain ⟨m1, hp, hv1, hh1⟩ := mu_prefix e fuel s t col row hmo muLoops
+    unfold muT
+    rw [hp]
+    simp only []
+    have hs1 : m1.vm.s = s := by rw [hv1]; rfl
+    unfold muLoops
+    obtain ⟨m2, hm2, hs2, hl2⟩ := out1_loop e fuel (hitsAt t col row) s.lastHits m1 hh1
+    rw [hs1] at hm2 hs2
+    rw [execX_seq, execX_range_hits e fuel .init "_" "v4" "r.lastHits" outB1 m1 s.lastHits (by simp [evHits, hs1]), hm2]
+    cases h1 : (eNotifyLoop e fuel .mouseLeave (fun h => (hitsAt t col row).contains h) s.lastHits s).2
+    · simp only [Bool.false_eq_true, ↓reduceIte]
+      have hold : m2.vm.s.lastHits = s.lastHits := by rw [hs2, eNotifyLoop_hits]
+      obtain ⟨m3, hm3, hs3, hl3⟩ := out2_loop e fuel s.lastHits (hitsAt t col row) m2 hold
+      rw [hs2] at hm3 hs3
+      rw [execX_seq, execX_range_hits e fuel .init "_" "v8" "v2" outB2 m2 (hitsAt t col row) (by simp [evHits, hl2, hh1]), hm3]
+      cases h2 : (eNotifyLoop e fuel .mouseEnter (fun h => s.lastHits.contains h) (hitsAt t col row)
+          (eNotifyLoop e fuel .mouseLeave (fun h => (hitsAt t col row).contains h) s.lastHits s).1).2
+      · simp only [Bool.false_eq_true, ↓reduceIte]
+        have hf3 : find m3.x.hitl "v2" = some (hitsAt t col row) := by rw [hl3, hl2]; exact hh1
+        xs [muEnd, hf3, hs3]
+      · simp only [↓reduceIte, hs3]
+        exact congrArg some (Prod.ext rfl h2.symm)
+    · simp only [↓reduceIte, hs2]
+      exact congrArg some (Prod.ext rfl h1.symm)
 
 end VaxisModel.Lemmas.VxfwBodyX
